@@ -1,6 +1,7 @@
 package main
 
 import (
+	"go/types"
 	"math/big"
 	"strings"
 
@@ -30,6 +31,47 @@ func registerMoreIntrinsics() {
 			// decimal text of an amount: opaque, injective in the amount (text formatting is outside the encoding)
 			return Str{sym: &SymStr{kind: "amount", args: []Value{a[0].(Struct)[0]}}}
 		},
+		// wall clock: an arbitrary non-decreasing instant (nanoseconds since the Unix epoch, < 2^62)
+		"time.Now": func(p *Path, _ *ssa.Function, a []Value) Value {
+			return Struct{p.ic(0, 64), p.clockTick(), Ptr(nil)}
+		},
+		"(time.Time).UnixNano": func(p *Path, _ *ssa.Function, a []Value) Value {
+			return a[0].(Struct)[1]
+		},
+		"(time.Time).Unix": func(p *Path, _ *ssa.Function, a []Value) Value {
+			ns := a[0].(Struct)[1].(*Term)
+			if ns.sort.K == KInt {
+				return p.tb.IDiv(ns, p.tb.Int(1000000000))
+			}
+			return p.tb.Sdiv(ns, p.tb.BV(1000000000, 64))
+		},
+		"encoding/json.Marshal": func(p *Path, _ *ssa.Function, a []Value) Value {
+			iv := a[0].(Iface)
+			v := iv.v
+			t := iv.t
+			if pt, ok := t.(*types.Pointer); ok {
+				ptr := v.(Ptr)
+				if ptr == nil {
+					panic(p.unsupported("json.Marshal(nil pointer)"))
+				}
+				v, t = copyVal(*ptr), pt.Elem()
+			}
+			return Tuple{Slice{jsonBlob{t, copyVal(v)}}, Iface{}}
+		},
+		"encoding/json.Unmarshal": func(p *Path, _ *ssa.Function, a []Value) Value {
+			data := a[0].(Slice)
+			dst := a[1].(Iface)
+			if len(data) == 1 {
+				if jb, ok := data[0].(jsonBlob); ok {
+					pt, isP := dst.t.(*types.Pointer)
+					if isP && types.Identical(pt.Elem(), jb.t) {
+						storeVal(dst.v.(Ptr), copyVal(jb.v))
+						return Iface{}
+					}
+				}
+			}
+			panic(p.unsupported("json.Unmarshal of bytes that are not a json.Marshal blob"))
+		},
 		"strings.TrimSpace": func(p *Path, _ *ssa.Function, a []Value) Value {
 			s, ok := a[0].(Str).concrete()
 			if !ok {
@@ -56,6 +98,10 @@ func registerMoreIntrinsics() {
 			return p.strConst(strings.Repeat(s, int(n.Signed().Int64())))
 		},
 		"github.com/MixinNetwork/mixin/common.NewIntegerFromString": func(p *Path, _ *ssa.Function, a []Value) Value {
+			if sy := a[0].(Str).sym; sy != nil && sy.kind == "amount" {
+				// inverse pair: parse(format(x)) = x (decimal text itself is outside the encoding)
+				return Struct{sy.args[0]}
+			}
 			s, ok := a[0].(Str).concrete()
 			if !ok {
 				panic(p.unsupported("NewIntegerFromString of symbolic string (decimal text is outside the encoding)"))
@@ -75,4 +121,26 @@ func registerMoreIntrinsics() {
 	for k, v := range m {
 		intrinsics[k] = v
 	}
+}
+
+// clockTick returns a fresh symbolic instant not earlier than the previous one.
+func (p *Path) clockTick() *Term {
+	tb := p.tb
+	var t *Term
+	if p.intW(64) {
+		t = p.fresh("clk", SInt)
+		p.assertPC(tb.And(tb.ILe(tb.Int(0), t), tb.ILt(t, tb.IntBig(pow2(62)))))
+		if p.clock != nil {
+			p.assertPC(tb.ILe(p.clock, t))
+		}
+	} else {
+		t = p.fresh("clk", SBV(64))
+		p.assertPC(tb.Ult(t, tb.BVBig(pow2(62), 64)))
+		if p.clock != nil {
+			p.assertPC(tb.Ule(p.clock, t))
+		}
+	}
+	p.clock = t
+	p.inputs = append(p.inputs, InputRec{Kind: "clock", Terms: []*Term{t}})
+	return t
 }
